@@ -1,8 +1,170 @@
 package main
 
-import "golang.org/x/tools/go/ssa"
+// T10: contracts of the reflect and encoding/json functions the package uses.
+// Everything here is an assumption about the library, listed in evidence.
 
-// reflectModel: T10 models of reflect / encoding/json (added with C15/C16).
+import (
+	"fmt"
+	"go/types"
+	"strings"
+
+	"golang.org/x/tools/go/ssa"
+)
+
+const rvSort = "S_reflect_Value"
+
+func (vc *FuncVC) declT10() {
+	w := vc.w
+	vc.trusted["T10 reflect/json: ValueOf/Kind/Len/Index/Interface/IsNil/Type/Elem/Set and json.Marshal/Unmarshal behave as documented; Marshal/Unmarshal are uninterpreted functions of their inputs"] = true
+	// make sure the reflect.Value datatype exists
+	for _, imp := range vc.eng.pkg.Types.Imports() {
+		if imp.Path() == "reflect" {
+			if obj := imp.Scope().Lookup("Value"); obj != nil {
+				w.sortOf(obj.Type())
+			}
+		}
+	}
+	w.declare("rvIface", fmt.Sprintf("(declare-fun rvIface (%s) Iface)\n(declare-fun rvTarget (%s) Iface)", rvSort, rvSort))
+	w.declare("spec:lenOf", "(declare-fun sf_lenOf (Iface) Int)")
+	w.declare("spec:elemOf", "(declare-fun sf_elemOf (Iface Int) Iface)")
+	w.declare("rtid", "(declare-fun rtid (Type) Int)\n(declare-fun rtidInv (Int) Type)\n(assert (forall ((t Type)) (! (and (= (rtidInv (rtid t)) t) (> (rtid t) 0)) :pattern ((rtid t)))))")
+	w.declare("spec:jsonEnc", "(declare-fun sf_jsonEnc (Iface) Slice)")
+	w.declare("spec:jsonEncErr", "(declare-fun sf_jsonEncErr (Iface) Iface)")
+	w.declare("spec:jsonDec", "(declare-fun sf_jsonDec (Slice Iface Iface) Iface)")
+	w.declare("spec:jsonDecErr", "(declare-fun sf_jsonDecErr (Slice Iface Iface) Iface)")
+	w.declare("isNilPayload", "(declare-fun isNilPayload (Iface) Bool)")
+}
+
+func (vc *FuncVC) rtypeConst() string {
+	// the dynamic type of reflect.Type values (*reflect.rtype); only its identity matters
+	n := "T_Preflect_rtype"
+	if _, ok := vc.w.typeConsts[n]; !ok {
+		vc.w.typeConsts[n] = types.NewPointer(types.Typ[types.Uintptr])
+		vc.w.typeOrder = append(vc.w.typeOrder, n)
+	}
+	return n
+}
+
+func (vc *FuncVC) rtOf(typTerm string) string {
+	return app("mkI", vc.rtypeConst(), app("bInt", app("rtid", typTerm)))
+}
+
+func kindIn(k string, ks ...int) string {
+	var ds []string
+	for _, x := range ks {
+		ds = append(ds, eq(k, fmt.Sprint(x)))
+	}
+	return or(ds...)
+}
+
+func (vc *FuncVC) kindOfIface(x string) string {
+	return ite(eq(x, "nilI"), "0", app("kindOf", app("typ", x)))
+}
+
+// pointee ghost heap: what a pointer held in an interface points to, as an interface value.
+func (vc *FuncVC) pointeeGet(st *State) string {
+	return st.heapGet("Pointee", arraySort(SInt, SIface))
+}
+
 func (vc *FuncVC) reflectModel(st *State, fr *Frame, instr ssa.Instruction, callee *ssa.Function, args []any, site string) ([]any, bool) {
+	vc.declT10()
+	_ = vc.w
+	name := callee.String()
+	argV := func(i int) V { return args[i].(V) }
+	freshRV := func() V {
+		return V{st.fresh("rv", rvSort), rvSort, nil}
+	}
+	switch name {
+	case "reflect.ValueOf":
+		x := argV(0)
+		r := freshRV()
+		st.assume(eq(app("rvIface", r.T), x.T))
+		return []any{r}, true
+	case "reflect.TypeOf":
+		x := argV(0)
+		return []any{V{ite(eq(x.T, "nilI"), "nilI", vc.rtOf(app("typ", x.T))), SIface, nil}}, true
+	case "(reflect.Value).Kind":
+		x := app("rvIface", argV(0).T)
+		return []any{V{vc.kindOfIface(x), SInt, callee.Signature.Results().At(0).Type()}}, true
+	case "(reflect.Value).Len":
+		x := app("rvIface", argV(0).T)
+		vc.nopanic(st, "reflect-len-kind", instr, kindIn(vc.kindOfIface(x), 17, 18, 21, 23, 24))
+		l := app("sf_lenOf", x)
+		st.assume(app(">=", l, "0"))
+		st.assume(intRange(types.Typ[types.Int], l))
+		st.assume(implies(and(not(eq(x, "nilI")), eq(app("kindOf", app("typ", x)), "23")), eq(l, app("slen", app("uSlice", app("pay", x))))))
+		return []any{V{l, SInt, types.Typ[types.Int]}}, true
+	case "(reflect.Value).Index":
+		x := app("rvIface", argV(0).T)
+		i := argV(1)
+		vc.nopanic(st, "reflect-index-kind", instr, kindIn(vc.kindOfIface(x), 17, 23, 24))
+		vc.nopanic(st, "reflect-index-range", instr, and(app("<=", "0", i.T), app("<", i.T, app("sf_lenOf", x))))
+		r := freshRV()
+		st.assume(eq(app("rvIface", r.T), app("sf_elemOf", x, i.T)))
+		return []any{r}, true
+	case "(reflect.Value).Interface":
+		x := app("rvIface", argV(0).T)
+		return []any{V{x, SIface, nil}}, true
+	case "(reflect.Value).IsNil":
+		x := app("rvIface", argV(0).T)
+		vc.nopanic(st, "reflect-isnil-kind", instr, kindIn(vc.kindOfIface(x), 18, 19, 20, 21, 22, 23, 26))
+		k := app("kindOf", app("typ", x))
+		st.assume(implies(kindIn(k, 18, 19, 21, 22, 26), eq(app("isNilPayload", x), eq(app("uInt", app("pay", x)), "0"))))
+		return []any{V{app("isNilPayload", x), SBool, types.Typ[types.Bool]}}, true
+	case "(reflect.Value).Type":
+		x := app("rvIface", argV(0).T)
+		vc.nopanic(st, "reflect-type-of-zero-value", instr, not(eq(x, "nilI")))
+		return []any{V{vc.rtOf(app("typ", x)), SIface, nil}}, true
+	case "(reflect.Value).Elem":
+		x := app("rvIface", argV(0).T)
+		vc.nopanic(st, "reflect-elem-kind", instr, kindIn(vc.kindOfIface(x), 20, 22))
+		r := freshRV()
+		st.assume(eq(app("rvTarget", r.T), x))
+		st.assume(eq(app("rvIface", r.T), sel(vc.pointeeGet(st), app("uInt", app("pay", x)))))
+		return []any{r}, true
+	case "(reflect.Value).Set":
+		dst, src := argV(0), argV(1)
+		tgt := app("rvTarget", dst.T)
+		sv := app("rvIface", src.T)
+		// settable and assignable: the destination is the pointee of a non-nil pointer of exactly the source's type
+		vc.nopanic(st, "reflect-set-assignable", instr, and(not(eq(tgt, "nilI")), eq(app("kindOf", app("typ", tgt)), "22"),
+			not(eq(app("uInt", app("pay", tgt)), "0")), not(eq(sv, "nilI")), eq(app("typ", sv), app("elemT", app("typ", tgt)))))
+		p := vc.pointeeGet(st)
+		st.heapSet("Pointee", arraySort(SInt, SIface), sto(p, app("uInt", app("pay", tgt)), sv))
+		return nil, true
+	case "encoding/json.Marshal":
+		x := argV(0)
+		e := app("sf_jsonEncErr", x.T)
+		b := st.freshV("json", callee.Signature.Results().At(0).Type())
+		vc.assumeTypeWF(st, b, callee.Signature.Results().At(0).Type())
+		st.assume(implies(eq(e, "nilI"), eq(b.T, app("sf_jsonEnc", x.T))))
+		return []any{b, V{e, SIface, nil}}, true
+	case "encoding/json.Unmarshal":
+		data, dest := argV(0), argV(1)
+		p := vc.pointeeGet(st)
+		ref := app("uInt", app("pay", dest.T))
+		old := sel(p, ref)
+		e := app("sf_jsonDecErr", data.T, dest.T, old)
+		isPtr := and(not(eq(dest.T, "nilI")), eq(app("kindOf", app("typ", dest.T)), "22"), not(eq(ref, "0")))
+		// Unmarshal reports an error (never panics) for a nil or non-pointer destination, and then writes nothing
+		st.assume(implies(not(isPtr), not(eq(e, "nilI"))))
+		st.heapSet("Pointee", arraySort(SInt, SIface), ite(isPtr, sto(p, ref, app("sf_jsonDec", data.T, dest.T, old)), p))
+		return []any{V{e, SIface, nil}}, true
+	}
+	if strings.HasPrefix(name, "(reflect.Kind)") {
+		return nil, false
+	}
+	return nil, false
+}
+
+// reflectTypeMethod: methods invoked on a reflect.Type interface value.
+func (vc *FuncVC) reflectTypeMethod(st *State, instr ssa.Instruction, recv V, m string) ([]any, bool) {
+	vc.declT10()
+	switch m {
+	case "Elem":
+		t := app("rtidInv", app("uInt", app("pay", recv.T)))
+		vc.nopanic(st, "reflect-type-elem-kind", instr, kindIn(app("kindOf", t), 17, 18, 21, 22, 23))
+		return []any{V{vc.rtOf(app("elemT", t)), SIface, nil}}, true
+	}
 	return nil, false
 }
